@@ -8,7 +8,7 @@ from vlib import Result, enc_list, f2b, Toks, close
 
 PROP = 'C02'
 META = {
-    'level_text': 'Lean 4 theorems, for every state, face-flux field, step size and grid size: recorded density / mean radius / fraction are the moments M0, M1/M0, min(c*M3,1) of the state of that step; the stored PSD is the truncation of that state (non-negative whatever the state, at most one particle per class removed, no moment increased); the accepted update changes the total number by exactly dt*(J0 - Jn + nucRate) with J0 <= 0 <= Jn, so it grows by at most nucRate*dt and not at all without nucleation; zeroing and extension steps never increase it. Each accepted step of real Al-Zr runs (Euler and RK4, adaptive re-meshing configuration, split solves) is replayed through the compiled model and the budget predicate is evaluated on the logged implementation values. The re-mesh clause is false of the code (known finding) and is excluded from the theorem (`density_step_partial`).',
+    'level_text': 'Lean 4 theorems, for every state, face-flux field, step size and grid size: recorded density / mean radius / fraction are the moments M0, M1/M0, min(c*M3,1) of the state of that step; the stored PSD is the truncation of that state (non-negative whatever the state, at most one particle per class removed, no moment increased); the accepted update changes the total number by exactly dt*(J0 - Jn + nucRate) with J0 <= 0 <= Jn, so it grows by at most nucRate*dt and not at all without nucleation; zeroing and extension steps never increase it. Each accepted step of real Al-Zr runs (Euler and RK4, adaptive re-meshing configuration, split solves) is replayed through the compiled model and the budget predicate is evaluated on the logged implementation values. The re-mesh clause is false of the code (known finding) and is excluded from the theorem (`density_step_partial`). The composed KWN step (KawinV.KWNFull, both iterators) reproduces transport, correction, truncation, extension / re-mesh and the recorded statistics of every accepted step of real runs from the entry state and the captured backend answers; anyStep_good / runSteps_good: the stored distributions stay non-negative and the grids consistent after every step of every run.',
     'level_note': 'Trusted: Lean kernel + Mathlib (standard axioms); hand models KawinV.PSD/KawinV.PBM/KawinV.MB equal the code as far as compared on this run; call order inside a KWN step observed by run-time wrappers; exact-field vs IEEE (rtol 1e-9 scaled by the summed magnitudes). Re-mesh steps: number density is not preserved by changeSizeClasses (finding, not proved).',
     'technique': 'Lean 4 proof (telescoping budget + order lemmas) + trace refinement of real runs against the model',
     'design_ref': 'DESIGN.md section 6, C02',
